@@ -35,10 +35,10 @@ def bounds(tier):
     return {"texts_and_max_elements": CFG[tier], "tags": TAGS, "tags_2": TAGS2, "spans_per_call": 2, "modes": ["skip", "wrap"]}
 
 
-def check(plain, source, ss, mode):
+def check(plain, source, ss, mode, dmp=True):
     marks = [("<a>", "</a>")] * len(ss)
     try:
-        out = annot.annotate(plain, ss, source, mode, True, marks)
+        out = annot.annotate(plain, ss, source, mode, dmp, marks)
     except Exception as e:  # noqa: BLE001
         return [(f"raise-{mode}", short_exc(e))]
     res = []
@@ -69,7 +69,7 @@ def check(plain, source, ss, mode):
 
 
 def replay(case):
-    res = check(case["plain"], case["source"], [tuple(s) for s in case["spans"]], case["mode"])
+    res = check(case["plain"], case["source"], [tuple(s) for s in case["spans"]], case["mode"], case.get("dmp", True))
     return [{"msg": f"{lab}: {det} :: {case}", "label": lab} for lab, det in res]
 
 
@@ -104,7 +104,7 @@ def shards(tier, seed):
     for plain, mx in CFG[tier]:
         n = 16 if mx <= 2 else 64
         for r in range(n):
-            out.append({"plain": plain, "max_el": mx, "r": r, "n": n})
+            out.append({"plain": plain, "max_el": mx, "r": r, "n": n, "both_engines": mx <= 2})
             if mx <= 2:
                 out.append({"plain": plain, "max_el": mx, "r": r, "n": n, "tags": TAGS2})
     return out
@@ -160,9 +160,15 @@ def run_shard(sh):
                 st.traces += 1
                 st.transitions += 1
                 p["evaluations"] += 1
-                res = check(plain, source, ss, mode)
-                st.outcomes.add(h64([r[0] for r in res]) if res else 0)
-                for lab, det in res:
-                    case = {"plain": plain, "source": source, "spans": [list(s) for s in ss], "mode": mode}
-                    st.violation(case, f"{lab}: {det} :: source={source!r} spans={ss}", label=lab)
+                for dmp in (True, False) if sh.get("both_engines") else (True,):
+                    res = check(plain, source, ss, mode, dmp)
+                    if not dmp:
+                        st.evaluations += 1
+                        st.traces += 1
+                        st.transitions += 1
+                        p["evaluations"] += 1
+                    st.outcomes.add(h64([r[0] for r in res]) if res else 0)
+                    for lab, det in res:
+                        case = {"plain": plain, "source": source, "spans": [list(s) for s in ss], "mode": mode, "dmp": dmp}
+                        st.violation(case, f"{lab}: {det} :: source={source!r} spans={ss} engine={'dmp' if dmp else 'difflib'}", label=lab)
     return st
